@@ -567,7 +567,6 @@ func dischargeSeeded(obls []*Obligation, dir string, timeoutS, workers, seed int
 	discharge(obls, dir, timeoutS, workers)
 }
 
-
 // quickTierDriver: a bounded driver whose header says "quick-tier: yes" (fast,
 // deterministic, no I/O) also runs in the quick tier.  It stays a labelled
 // bounded check; it never turns an undischarged obligation into a pass.
